@@ -24,7 +24,7 @@ REQUIRED = ["iff_checked:plurality", "iff_checked:approval", "iff_checked:superm
 ASSUMPTIONS = ["shares f in {1/2,1/4,1/8} (f and 1/(2f) both dyadic) are exact in binary; inexact shares (2/3, 0.6) are only evaluated at a "
                "distance from the threshold that rounding cannot bridge", "ballot candidates are a subset of the "
                "contest's candidates"]
-N_CASES = {"quick": 24000, "thorough": 600000}
+N_CASES = {"quick": 96000, "thorough": 768000}
 TRUTHY = (True, 1, "x", 5, "marked", 2.5)
 FALSY = (False, 0, "", None, 0.0)
 CANDS = ["A", "B", "C", "D", "E", "F"]
